@@ -64,8 +64,11 @@ def run():
         reqs.append({"id": f"xp{j}", "src": pre + f"say([{recv}{step}, nil])"})
     out = run_cases(reqs, label="C13")
     nontrivial = comparisons = 0
+    unfinished = lambda *rs: any(str(r["end"]).startswith(("discarded:", "fuel:")) for r in rs)
     for i, c in enumerate(cases):
         w, p = out[f"w{i}"], out[f"p{i}"]
+        if unfinished(w, p):
+            continue
         chain = c["chain"]
         steps = "".join(STEP[s] for s in chain)
 
@@ -118,6 +121,8 @@ def run():
                           {"chain": steps, "accessor": a["a"], "observed": got, "expected": want})
     for j, (pre, recv, step) in enumerate(extra):
         a, b = out[f"xw{j}"], out[f"xp{j}"]
+        if unfinished(a, b):
+            continue
         comparisons += 1
         same = (a["events"], a["end"]) == (b["events"], b["end"])
         if recv != "f" and b["end"].startswith("err:") and b["end"].count(":") >= 2:      # the plain call raises: the wrapped one holds exactly that error
@@ -141,6 +146,8 @@ def run():
     lout = run_cases(lreqs, label="C13 list chains over Eithers")
     for k, ch in enumerate(chains2):
         a, b = lout[f"L{k}"], lout[f"E{k}"]
+        if unfinished(a, b):
+            continue
         last = lambda o: ([e for e in o["events"] if e.startswith("out:[")] or ["<none>"])[-1]
         comparisons += 1
         if (last(a), a["end"].split(":")[0]) != (last(b), b["end"].split(":")[0]) or sorted(a["events"]) != sorted(b["events"]):
